@@ -12,6 +12,7 @@ Decided (structure of spifconf_shell_expand and the variable store):
   V5  effects: globals referenced by the expansion code are within the declared set
   V6  the variable store: every early exit of the lookup loop is decided by the same ordering function that the
       insertion uses (strcmp), so lookup and insertion agree on the order
+  V4  every indexed store into the result buffer is below its size (GHOSTPOS over the output index; also with DEBUG=0)
 Not decided: the value of the expansion (escape table, quoting, %put/%get semantics)."""
 import re
 
